@@ -387,6 +387,23 @@ def build_corpus(tier, out, jobs):
             p1 = m1.get(c1) if c1 != small else msmall[small]
             if p1 is not None and c2 in m2 and c3 in m2:
                 files.append(("align", kind, [p1, m2[c2], m2[c3]]))
+        # a stream whose payload is exactly the default read size (1 MiB) and whose compressed end falls d bytes
+        # behind a multiple of the read-ahead size, between a short first and a 60000-byte last stream
+        big = ("I", 0, MIB, "")
+        cbig = len(compress_piece(kind, big))
+        grid = 5000 if kind == "bzip2" else 8192
+        wantedb = {}
+        for d in (range(-10, 21) if tier == "thorough" else range(-2, 13)):
+            c1 = (d - cbig) % grid
+            while c1 < 200:
+                c1 += grid
+            wantedb[d] = c1
+        mb = find_exact(pool, kind, FAM1, set(wantedb.values()))
+        for d, c1 in sorted(wantedb.items()):
+            if c1 in mb:
+                files.append(("align", kind, [mb[c1], big, ("I", 0, 60000, "")]))
+            else:
+                unreachable.append("%s big-first=%d" % (kind, c1))
     missing = len(unreachable)
     _tick("align: exact-length search")
 
@@ -465,6 +482,7 @@ def build_corpus(tier, out, jobs):
     pool.join()
     _tick("sweep reference tables")
     sweep_lines = []
+    lenient = 0
     for sidx, (kind, pieces, path, data, P, blobs) in enumerate(sweeps):
         table = array.array("H")
         res_id = {}
@@ -490,6 +508,12 @@ def build_corpus(tier, out, jobs):
             got = open(os.path.join(out, "%s.res%d" % (path, k)), "rb").read() if k else None
             if got != P[:cum]:
                 raise SystemExit("C09 gen self-check failed: reference on whole-stream prefix of " + fmt_pieces(pieces))
+        bounds = set([0])
+        e = 0
+        for b in blobs:
+            e += len(b)
+            bounds.add(e)
+        lenient += sum(1 for t in range(len(data)) if t not in bounds and table[t] != 0)
         sweep_lines.append("S\tsweep\t%s\t%s\t%s\t%s\t%s\t%d\t%s\t%d" % (
             kind, path, fmt_pieces(pieces), digest(P), ",".join(str(len(b)) for b in blobs), V, path + ".tab", len(res_id)))
 
@@ -497,6 +521,7 @@ def build_corpus(tier, out, jobs):
         # small things first (bounds are iterated smallest first): sweep files, align, lattice, ltrunc
         order = {"align": 1, "lattice": 2, "ltrunc": 3}
         mf.write("N\talign targets not reachable with an exact compressed length\t%d\t%s\n" % (missing, " ".join(unreachable[:40])))
+        mf.write("N\tsweep truncations that are not at a stream boundary but for which the reference returned bytes\t%d\n" % lenient)
         for ln in sweep_lines:
             mf.write(ln + "\n")
         for fidx in sorted(lines_of, key=lambda i: (order[files[i][0]], i)):
